@@ -321,6 +321,61 @@ def run_sharded(cmd, case_file, out_file, nlines, shards):
         raise Broken("runner", "%s: %s" % (" ".join(cmd), errs[0]))
 
 
+def sweep_family(fam, bins, modelrun, mismatches):
+    """an exhaustive implementation-only family (harness/src/sweep.rs): the model's line for this projection is the
+    constant fam["expect"] on every case of the domain BY THE THEOREM fam["theorem"], so only the implementation
+    runs over the domain; every case whose line differs is then run on the model as well (which confirms the
+    constant on that case) and reported like any other pinned mismatch"""
+    t0 = time.time()
+    name = fam["name"]
+    total = 0
+    fam_mis = 0
+    samples = []
+    for prof in fam.get("profiles", ["release"]):
+        cmd = [bins[prof], "sweep"] + fam["sweep"] + ["--expect", fam["expect"], "--threads", str(NPROC)]
+        r = subprocess.run(cmd, stdout=subprocess.PIPE, stderr=subprocess.PIPE, text=True)
+        if r.returncode not in (0, 3):
+            raise Broken("runner", "%s: %s" % (" ".join(cmd), r.stderr[-2000:]))
+        bad = []
+        for l in r.stdout.splitlines():
+            if l.startswith("BAD "):
+                case, _, out = l[4:].partition(" => ")
+                bad.append((case, out))
+            elif l.startswith("HANG "):
+                bad.append((l[5:], "HANG"))
+            elif l.startswith("SWEPT "):
+                total = int(l.split()[1])
+                fam_mis += int(l.split()[3])
+        if bad:
+            mr = subprocess.run(["bash", "-c", "ulimit -s unlimited; exec \"$@\"", "x", modelrun, "--chk", "1" if prof == "chk" else "0"],
+                                input="\n".join(c for c, _ in bad) + "\n", stdout=subprocess.PIPE, text=True, timeout=600)
+            mout = mr.stdout.splitlines()
+            real = 0
+            for k, (case, out) in enumerate(bad):
+                model = mout[k].strip() if k < len(mout) else fam["expect"]
+                if model != out:
+                    real += 1
+                    if len(mismatches) < 20:
+                        mismatches.append({"family": name, "profile": prof, "line": 0, "case": case, "implementation": out,
+                                           "model": model, "pinned": True,
+                                           "note": "exhaustive implementation-only sweep; the model's line is the constant '%s' "
+                                                   "by theorem %s" % (fam["expect"], fam["theorem"])})
+            if not real:
+                raise Broken("sweep", "family %s: the implementation differs from the expected constant '%s' on %s but agrees "
+                             "with the model there: the constant claimed for theorem %s is wrong" %
+                             (name, fam["expect"], bad[0][0], fam["theorem"]))
+            if r.returncode == 3:
+                fam_mis += 1
+    log("family %-22s %8d cases x %d profile(s): %s (%.1fs) [sweep, model constant by %s]" % (
+        name, total, len(fam.get("profiles", ["release"])), "agree" if not fam_mis else "%d MISMATCHES" % fam_mis,
+        time.time() - t0, fam["theorem"]))
+    return {"family": name, "cases": total, "distinct": total, "profiles": fam.get("profiles", ["release"]),
+            "exhaustive": bool(fam.get("exhaustive")), "rule": fam["rule"], "categories": {}, "mismatches": fam_mis,
+            "samples": ["ckc-probe sweep " + " ".join(fam["sweep"]) + " --expect '%s'" % fam["expect"]],
+            "model_side": "constant '%s' by theorem %s (not executed except on differing cases)" % (fam["expect"], fam["theorem"]),
+            "wall_s": round(time.time() - t0, 2)}
+
+
 def correspondence(prop, fams, bins, modelrun, work):
     """run every family on the implementation and on the model; return (stats, mismatches)"""
     stats = []
@@ -329,6 +384,9 @@ def correspondence(prop, fams, bins, modelrun, work):
     for fam in fams:
         t0 = time.time()
         name = fam["name"]
+        if "sweep" in fam:
+            stats.append(sweep_family(fam, bins, modelrun, mismatches))
+            continue
         case_file = os.path.join(work, "%s.cases" % name)
         if "cases_cmd" in fam:
             with open(case_file, "w") as fo:
@@ -359,7 +417,7 @@ def correspondence(prop, fams, bins, modelrun, work):
                             if len(mismatches) < 20:
                                 mismatches.append({"family": name, "profile": prof, "line": k + 1, "case": c.strip(),
                                                    "implementation": a.strip(), "model": b.strip(),
-                                                   "pinned": bool(fam.get("pinned"))})
+                                                   "pinned": bool(fam.get("pinned")), "beyond": bool(fam.get("beyond"))})
                     # length mismatch
                 la = sum(1 for _ in open(impl_out))
                 lb = sum(1 for _ in open(model_out))
@@ -380,12 +438,14 @@ def correspondence(prop, fams, bins, modelrun, work):
             samples = fam["lines"][:2] + fam["lines"][-1:]
         if not os.environ.get("VERIF_KEEP") and not fam_mis:
             os.remove(case_file)
-        stats.append({"family": name, "cases": nlines, "distinct": distinct, "profiles": profiles,
+        stats.append({"family": name, "cases": nlines, "distinct": distinct, "profiles": profiles, "beyond": bool(fam.get("beyond")),
                       "exhaustive": bool(fam.get("exhaustive")), "rule": fam["rule"],
                       "categories": fam.get("categories", {}), "mismatches": fam_mis, "samples": samples,
                       "wall_s": round(time.time() - t0, 2)})
         log("family %-22s %8d cases x %d profile(s): %s (%.1fs)" % (name, nlines, len(profiles),
-                                                                  "agree" if not fam_mis else "%d MISMATCHES" % fam_mis,
+                                                                  "agree" if not fam_mis else
+                                                                  ("%d MISMATCHES" % fam_mis if not fam.get("beyond") else
+                                                                   "%d differences OUTSIDE the property (model drift, no verdict)" % fam_mis),
                                                                   time.time() - t0))
     return stats, mismatches
 
@@ -503,7 +563,7 @@ def main(argv):
 
     evidence_path = os.path.join(ROOT, "evidence", prop + ".json")
     broken = []       # (stage, detail)
-    stats, mismatches = [], []
+    stats, mismatches, drift = [], [], []
     names = theorem_names(prop)
     discharged = 0
     assumptions = {}
@@ -539,9 +599,14 @@ def main(argv):
             modelrun = build_model()
             rng = inputs.Rng(seed)
             fams = spec["families"](rng, tier)
-            stats, mismatches = correspondence(prop, fams, bins, modelrun, os.path.join(BUILD, "work", prop))
+            stats, all_mis = correspondence(prop, fams, bins, modelrun, os.path.join(BUILD, "work", prop))
+            # families marked `beyond` compare behaviour the property does not fix: a difference there is model drift, recorded
+            # in the evidence, and no verdict
+            drift = [m for m in all_mis if m.get("beyond")]
+            mismatches = [m for m in all_mis if not m.get("beyond")]
             if mismatches:
-                broken.append(("correspondence", "%d disagreeing case(s), first: %s" % (sum(s["mismatches"] for s in stats), json.dumps(mismatches[0]))))
+                broken.append(("correspondence", "%d disagreeing case(s), first: %s" % (
+                    sum(s["mismatches"] for s in stats if not s.get("beyond")), json.dumps(mismatches[0]))))
         except Broken as b:
             broken.append((b.stage, b.detail))
 
@@ -624,7 +689,8 @@ def main(argv):
                     + " | ".join("%s: %s" % (s["family"], s["rule"]) for s in stats),
             "samples": samples or [s["statement"] for s in stmts[:2]],
             "exhaustive": bool(stats) and all(s["exhaustive"] for s in stats),
-            "families": [{k: s[k] for k in ("family", "cases", "distinct", "profiles", "exhaustive", "categories", "mismatches", "wall_s")} for s in stats],
+            "families": [{k: s.get(k) for k in ("family", "cases", "distinct", "profiles", "exhaustive", "categories", "mismatches", "wall_s", "beyond", "model_side")} for s in stats],
+            "model_drift_outside_property": [{k: m[k] for k in ("family", "case", "implementation", "model")} for m in drift[:10]],
             "explanation": spec.get("explanation", ""),
         },
         "assumptions": spec.get("assumptions", []),
